@@ -32,7 +32,8 @@ CHECKS = {
            "Oracle: glob matches p <=> prefix joined with a remainder the postfix matches; postfix unrooted; re-partition identity; rebuild of the displayed postfix.",
     'C09': "Proved (partial, stated as such): soundness on the class of patterns all of whose expansions end in a tree wildcard. Tie: is_exhaustive() and the negation's "
            "exhaustive/non-exhaustive partition vs the model of the repaired sequencer. Oracle: for every Always verdict, descendants of matched canonical paths are matched.",
-    'C10': "Proved so far: leaf terms only (the full soundness statement is in the file as C10_full). Tie: depth() exact variance vs the model of the whole algebra "
+    'C10': "Proved (partial, stated as such): for patterns that are a concatenation of leaves without tree wildcards the reported depth is invariant and equals the "
+           "component count of every canonical path of the documented language (C10_flat_sound; the general statement is in the file as C10_full). Tie: depth() exact variance vs the model of the whole algebra "
            "(conjunction table, disjunction over hash sets, products, finalize). Oracle: component count of every matched canonical path within the reported variance.",
     'C11': "Proved (all token trees, combinators included): C11_unique - invariant text => no other text is in the documented language (hypothesis on the two tables: a "
            "caseless character only folds to itself; validated over all code points on every run); two different texts => variant. Tie: text() vs the model. Oracle: "
